@@ -458,7 +458,7 @@ class PInterpolate(Pattern):
 
     def __next__(self):
         if self.pos == len(self.step_values):
-            vsteps = int(Pattern.value(self.steps))
+            vsteps = int(round(Pattern.value(self.steps), 8))
 
             #--------------------------------------------------------------------------------
             # Special case in which next step duration is zero: set the target value
@@ -466,7 +466,7 @@ class PInterpolate(Pattern):
             #--------------------------------------------------------------------------------
             while vsteps == 0:
                 self.value = next(self.pattern)
-                vsteps = int(Pattern.value(self.steps))
+                vsteps = int(round(Pattern.value(self.steps), 8))
             target = next(self.pattern)
 
             #--------------------------------------------------------------------------------
